@@ -108,11 +108,11 @@ Print Assumptions C01_tie_publish_qos12.
    output queue and a transport that ACCEPTS writes, REFUSES them (BlockingIOError) or FAILS HARD (OSError: the
    connection is torn down inside the write) are modelled; events distinguish a packet
    HANDED to the connection from a packet WRITTEN; reconnect() drops what is still queued.
-   [no_fail ops]: the history contains no hard write failure ([OTransport TFail]). *)
+   Every theorem below quantifies over ALL conforming histories, hard write failures included. *)
 From PahoV Require Import Session2.Model Session2.Check Session2.Statements Session2.C01Proofs.
 
 (* owned / completed once / handed to every established connection, when writes may block and reconnect() drops the queue: on_publish, the published flag and the lost mark of a QoS>0 message occur only in the operation that processes its final acknowledgement (this is the theorem behind the blocked-write oracle of the harness; the seeded change S-C01-1 is rejected by this checker) *)
 Theorem C01_with_blocking_transport : forall c ops,
-  cfg_ok c = true -> conforming c ops = true -> no_fail ops = true -> c01_ok c (optrace c ops) = true.
-Proof. exact c01_calm_proved. Qed.
+  cfg_ok c = true -> conforming c ops = true -> c01_ok c (optrace c ops) = true.
+Proof. exact c01_proved. Qed.
 Print Assumptions C01_with_blocking_transport.
